@@ -174,7 +174,7 @@ def sweep(tier, seed):
                      'metadata; failed; task / test / by-label statistics) x {TableRepresenter, FullTableRepresenter} x 5 non-silent verbosities: mark <=> failure, docutils read-back '
                      'of every table, detailed rows; 2-column tables of 3-4 rows with every highlight pattern: 4 slices and one join; '
                      '2 x 3 datasets (float, and integers beyond 10^6) in C and Fortran memory order, 4 failing-bin patterns: equal / approx-equal / Student detailed tables rendered, '
-                     'copied, sliced and joined: rows read back with the cells of one bin together and the highlight on the failing bins',
+                     'copied, sliced, joined and joined-then-sliced (5 sequences): rows read back with the cells of one bin together and the highlight on the failing bins',
             'samples': [{'result': 'stats_tasks', 'pattern': 'FAILED/SKIPPED', 'representer': 'TableRepresenter', 'verbosity': 'DEFAULT'}]}
 
 
@@ -224,9 +224,17 @@ def shapes_sweep(tier):
                                 variants = [('rendered', t)]
                                 try:
                                     variants.append(('copied', t.copy()))
-                                    if nrows >= 2 and all(np.ndim(c) == 1 for c in t.columns):
+                                    if nrows >= 2:
                                         variants.append(('sliced', t[slice(1, None)]))
-                                    variants.append(('joined', join(t, t.copy())))
+                                    joined = join(t, t.copy())
+                                    variants.append(('joined', joined))
+                                    # sequences of operations: the alignment must survive them
+                                    if nrows >= 2:
+                                        variants.append(('joined then sliced [1:]', joined[slice(1, None)]))
+                                        variants.append(('joined then sliced [::2]', joined[slice(None, None, 2)]))
+                                        variants.append(('joined then sliced [:2]', joined[slice(None, 2)]))
+                                        variants.append(('sliced [1:] then joined', join(t[slice(1, None)], t[slice(None, 1)])))
+                                        variants.append(('joined then copied then sliced', joined.copy()[slice(1, None)]))
                                 except Exception as e:      # noqa
                                     fails.append({'input': inp, 'observed': f'copy / slice / join raised {e!r}', 'expected': 'a table'})
                                 for what, tv in variants:
